@@ -548,3 +548,19 @@ pub proof fn lemma_inv_after_microstep(f0: &Fsm, fa: &Fsm, fb: &Fsm, ga: &Global
         assert(ga.child_sessions@[k] == gb.child_sessions@[k]);
     }
 }
+
+// ---- interpret(): start-up ------------------------------------------------------------------------------------
+/// clearing the history table keeps the document part of entry_wf
+pub proof fn lemma_entry_wf_hv_empty(f: &Fsm, g0: &GlobalData, g1: &GlobalData)
+    requires
+        entry_wf(f, g0),
+        hvv(g1.historyValue) =~= Map::<u32, Seq<u32>>::empty(),
+    ensures
+        entry_wf(f, g1),
+{
+}
+
+/// every entry of `l` from position `from` on is a data-model initialisation with flag `set_data`
+pub open spec fn only_inits(l: Seq<Call>, from: int, set_data: bool) -> bool {
+    forall|i: int| from <= i < l.len() ==> (#[trigger] l[i]) is Init && l[i]->Init_1 == set_data
+}
